@@ -273,6 +273,13 @@ class Series:
                     # promoted to object with NaN, then cast back to bool by the caller: NaN -> True
                     for p in _np.ndindex(d.a.shape):
                         d.a[p] = snp.ite(a._mask.a[p].b, SBool(True), d.a[p])
+                elif d._dt.kind in "iu":
+                    # maybe_promote(int, NaN) -> float64, but only when something is actually masked
+                    if bool(a._mask.any()):
+                        d = d.astype("float64")
+                        na = SFloat.const(float("nan"))
+                        for p in _np.ndindex(d.a.shape):
+                            d.a[p] = snp.ite(a._mask.a[p].b, na, d.a[p])
                 else:
                     raise Unsupported(f"Series from masked {d._dt}")
             a = d
